@@ -147,7 +147,7 @@ def shapes(a, tier, rng):
     for L in Ls:
         masks = [list(m) for m in itertools.product([True, False], repeat=L)]
         if len(masks) > 16:
-            masks = [masks[0], masks[-1]] + rng.sample(masks[1:-1], 14 if tier == "quick" else 30)
+            masks = [masks[0], masks[-1]] + rng.sample(masks[1:-1], min(len(masks) - 2, 14 if tier == "quick" else 30))
         mps = list(range(0, L + 2)) if a.has_mp else [0]
         for mp in mps:
             for m in masks:
